@@ -430,7 +430,8 @@ def run_short_write(c: dict):
 def arity_mismatch_cases():
     for integ in ("generic", "rdflib"):
         for scenario in ("empty-first-sink-then-triples", "short-statement-among-quads", "quadstream-fed-triples",
-                         "triplestream-fed-short-tuple"):
+                         "triplestream-fed-short-tuple", "missing-term-0", "missing-term-1", "missing-term-2", "missing-term-3",
+                         "missing-term-in-triples-0", "missing-term-in-triples-2"):
             for fs in (1, 3, 250):
                 for at in (0, 2, 4):
                     yield {"entry": "arity-mismatch:" + scenario, "integration": integ, "frame_size": fs, "at": at,
@@ -461,6 +462,27 @@ def run_arity_mismatch(c: dict):
             seq = [conv(q) for q in quads]
             short = seq[c["at"]][:3]
             seq[c["at"]] = tuple(short) if integ == "rdflib" else type(conv(triples[0]))(*short)
+            submitted = quads
+            mod.flat_stream_to_file((x for x in seq), out, options=SerializerOptions(
+                frame_size=c["frame_size"], logical_type=2, lookup_preset=LookupPreset.small()))
+        elif sc.startswith("missing-term-in-triples-"):
+            # a statement with a MISSING value (None where a term belongs - a failed look-up upstream) among triples
+            slot = int(sc[-1])
+            seq = [conv(t) for t in triples]
+            bad = list(seq[c["at"]])
+            bad[slot] = None
+            seq[c["at"]] = tuple(bad) if integ == "rdflib" else type(seq[0])(*bad)
+            submitted = triples
+            stream = pj.make_stream({"integration": integ, "physical": 1},
+                                    SerializerOptions(frame_size=c["frame_size"], logical_type=1, lookup_preset=LookupPreset.small()))
+            for fr in mod.stream_frames(stream, (x for x in seq)):
+                write_delimited(fr, out)
+        elif sc.startswith("missing-term-"):
+            slot = int(sc[-1])
+            seq = [conv(q) for q in quads]
+            bad = list(seq[c["at"]])
+            bad[slot] = None
+            seq[c["at"]] = tuple(bad) if integ == "rdflib" else type(seq[0])(*bad)
             submitted = quads
             mod.flat_stream_to_file((x for x in seq), out, options=SerializerOptions(
                 frame_size=c["frame_size"], logical_type=2, lookup_preset=LookupPreset.small()))
@@ -507,7 +529,7 @@ def run_shard(ctx):
             if w is not None:
                 ctx.violation(w)
             ctx.case(tuple(sorted((k, str(v)) for k, v in c.items())), outcome == "returned",
-                     sample={"cfg": c, "kind": "statement arity does not match the stream", "outcome": outcome})
+                     sample={"cfg": c, "kind": "statement that does not fit the stream (arity / missing term)", "outcome": outcome})
     if ctx.shard == 1 % ctx.nshards:
         for c in short_write_cases():
             w, outcome = run_short_write(c)
